@@ -681,7 +681,7 @@ func (vc *VC) copyElems(st *State, et types.Type, dstBase, dstOff, srcBase, srcO
 		if srcBase != nil {
 			src = mkSelect(arr, srcBase)
 		}
-		nd := vc.fresh("copy$"+l.Path, SArr(SInt, l.Sort))
+		nd := vc.fresh("inner$"+typeKey(et)+l.Path, SArr(SInt, l.Sort))
 		j := mkVar("j!", SInt)
 		in := mkAnd(mkCmp("<=", dstOff, j), mkCmp("<", j, mkAdd(dstOff, n)))
 		srcIdx := mkAdd(mkSub(j, dstOff), srcOff)
@@ -709,7 +709,7 @@ func (fr *Frame) doCopy(c *ssa.CallCommon, args []Val, st *State, pos string) Va
 		arr := vc.famGet(st, key, srt)
 		d := mkSelect(arr, dst.Base)
 		content := mkApp("strbytes", SArr(SInt, SInt), s)
-		nd := vc.fresh("copy$s", SArr(SInt, SInt))
+		nd := vc.fresh("inner$uint8", SArr(SInt, SInt))
 		j := mkVar("j!", SInt)
 		in := mkAnd(mkCmp("<=", dst.Off, j), mkCmp("<", j, mkAdd(dst.Off, n)))
 		vc.assume(st, mkForall([]*Term{j}, mkEq(mkSelect(nd, j), mkIte(in, mkSelect(content, mkSub(j, dst.Off)), mkSelect(d, j))), []*Term{mkSelect(nd, j)}))
@@ -751,7 +751,7 @@ func (fr *Frame) doAppend(c *ssa.CallCommon, args []Val, st *State, pos string) 
 		arr := vc.famGet(st, key, srt)
 		old := mkSelect(arr, s.Base)
 		oldRes := mkSelect(arr, resBase)
-		nd := vc.fresh("app$"+l.Path, SArr(SInt, l.Sort))
+		nd := vc.fresh("inner$"+typeKey(et)+l.Path, SArr(SInt, l.Sort))
 		j := mkVar("j!", SInt)
 		inOld := mkAnd(mkCmp("<=", res.Off, j), mkCmp("<", j, mkAdd(res.Off, s.Len)))
 		inNew := mkAnd(mkCmp("<=", mkAdd(res.Off, s.Len), j), mkCmp("<", j, mkAdd(res.Off, newLen)))
